@@ -122,6 +122,49 @@ class BareCp(Base):
 
 
 @register
+class PlanPause(Base):
+    """A plan that pauses itself (Msg('pause')), once right after a checkpoint and once two messages after one."""
+
+    id = "planpause"
+
+    def devices(self, ctx):
+        return {"det": FakeDet(ctx, "det", is_async=self.a, stageable=False)}
+
+    def plan(self, d):
+        import bluesky.plan_stubs as bps
+        from bluesky.utils import Msg
+
+        def plan():
+            yield from bps.open_run()
+            yield from bps.checkpoint()
+            yield Msg("pause")
+            yield from bps.trigger_and_read([d["det"]])
+            yield from bps.checkpoint()
+            yield Msg("null", None, "a")
+            yield Msg("pause")
+            yield from bps.trigger_and_read([d["det"]])
+            yield from bps.close_run()
+
+        return plan()
+
+
+@register
+class Monitor1Short(Base):
+    """monitor_during_wrapper around a one-point count with an instant detector (short enough for bound 3)."""
+
+    id = "monitor1short"
+
+    def devices(self, ctx):
+        return {"sig": FakeSignal(ctx, "sig", initial=0), "det": FakeDet(ctx, "det", is_async=self.a, stageable=False)}
+
+    def plan(self, d):
+        import bluesky.plans as bp
+        import bluesky.preprocessors as bpp
+
+        return bpp.monitor_during_wrapper(bp.count([d["det"]], num=1), [d["sig"]])
+
+
+@register
 class FlyOnly(Base):
     """bp.fly: kickoff / complete / collect without step readings."""
 
